@@ -47,6 +47,7 @@ type Atom struct {
 	// encoder: a single byte that is lane #Lane (0 = least significant) of the
 	// integer LaneOf, SrcBytes wide (byte(x>>8k), byte(x&0xFF), byte(x)); runs of
 	// lanes of one value are merged into one fixed atom by mergeLanes
+	Val      ssa.Value // encoder, fixed atoms: the integer value written (for rules that resolve an untraced value by bit lanes)
 	LaneOf   ssa.Value
 	Lane     int
 	SrcBytes int
